@@ -16,7 +16,7 @@ decrypted request carries an Echo option equal to the recipient's current `echo_
 namespace Coap.Replay
 
 /-- `OSCORE_SEQ_MAX` (include/oscore/oscore_context.h): `((uint64_t)1 << 40) - 1`. -/
-def SEQ_MAX : Nat := 2 ^ 40 - 1
+abbrev SEQ_MAX : Nat := 1099511627775   -- = 2^40 - 1; an `abbrev` of a literal so that `omega` takes it as an atom (give it `SEQ_MAX = 1099511627775 := rfl`)
 
 /-- `x << s` on `uint64_t`; no value when `s ≥ 64` (undefined behaviour in C). -/
 def shl64 (x s : Nat) : Option Nat :=
@@ -144,12 +144,13 @@ structure Snd where
   next : Nat       -- next_seq
   deriving DecidableEq, Repr
 
-/-- `osc_ctx->ssn_freq = oscore_conf->ssn_freq ? oscore_conf->ssn_freq : 1`. -/
-def effFreq (f : Nat) : Nat := if f = 0 then 1 else f
+/-- `osc_ctx->ssn_freq = oscore_conf->ssn_freq ? oscore_conf->ssn_freq : 1` (`uint32_t`). -/
+def effFreq (f : Nat) : Nat := if f % 2 ^ 32 = 0 then 1 else f % 2 ^ 32
 
-/-- `oscore_derive_ctx` with `start_seq_num = start`: the state after a (re)start. -/
+/-- `oscore_derive_ctx` with `start_seq_num = start`: the state after a (re)start
+(`next_seq = start - start % (ssn_freq > 0 ? ssn_freq : 1)`, `ssn_freq` a `uint32_t`). -/
 def restart (f : Nat) (start : Nat) : Snd :=
-  { seq := start, next := start - start % (if f > 0 then f else 1) }
+  { seq := start, next := start - start % (if f % 2 ^ 32 > 0 then f % 2 ^ 32 else 1) }
 
 /-- Result of protecting one message. -/
 structure POut where
